@@ -28,3 +28,32 @@ package vgirpc
 //@   ensures [local_fields] err == nil ==> 11 + cvLen + 2 + stateLen + 2 + urlLen + 2 + rtLen <= len(payload) &&
 //@       len(verifier) == cvLen && len(state) == stateLen && len(originalURL) == urlLen && len(returnTo) == rtLen
 //@   ensures [local_version] err == nil ==> version == 4 && (maxAge > 0 ==> 0 <= age && age <= maxAge)
+
+// ---- return-URL allow-list (C27): a token-carrying redirect only goes to a validated URL ----
+//
+//@ func isLocalhost
+//@   property C27
+//@   modifies nothing
+//@   ensures result == (hostname == "localhost" || hostname == "127.0.0.1" || hostname == "[::1]")
+
+// validateReturnTo: a non-empty result is the input itself and was admitted by exactly one of:
+// http on localhost; the allow-list entry scheme://hostname; the entry scheme://hostname:port.
+//
+//@ func validateReturnTo
+//@   property C27
+//@   ensures [local_same] result != "" ==> result == u && len(u) <= 2048
+//@   ensures [local_localhost_ret5] (hostname == "localhost" || hostname == "127.0.0.1" || hostname == "[::1]") && parsed.Scheme == "http"
+//@   ensures [local_origin_ret6] has(allowedOrigins, origin)
+//@   ensures [local_port_ret7] has(allowedOrigins, originWithPort)
+//@   ensures [local_refused_ret8] result == ""
+
+// SetOAuthPkce: the allow-list holds the default origin and the configured entries VERBATIM
+// (so an entry that names a port only ever matches that port in validateReturnTo).
+//
+//@ func (*HttpServer).SetOAuthPkce
+//@   property C27
+//@   loop 0 invariant rangeindex < len(config.AllowedReturnOrigins)
+//@   loop 0 invariant forall o string :: has(allowedOrigins, o) ==> o == defaultAllowedReturnOrigin ||
+//@       (exists j int :: 0 <= j && j <= rangeindex && config.AllowedReturnOrigins[j] == o)
+//@   at call ChainAuthenticate assert [verbatim] forall o string :: has(allowedOrigins, o) ==> o == defaultAllowedReturnOrigin ||
+//@       (exists j int :: 0 <= j && j < len(config.AllowedReturnOrigins) && config.AllowedReturnOrigins[j] == o)
